@@ -115,6 +115,98 @@ impl Sub for Repeat {
     }
 }
 
+/// keygen(S') right after keygen(S) on the same thread, for S' RELATED to S (same bit flipped in two
+/// bytes, bytes swapped or rotated, complemented, constant-byte pairs), must equal keygen(S') on a
+/// fresh thread and differ from keygen(S): a memo or comparison that confuses related seeds shows here.
+#[derive(Clone, Debug, Serialize, Deserialize)]
+pub struct RelatedCase {
+    n: usize,
+    seed: Hex,
+    /// 0: flip one bit position in two bytes; 1: in four bytes; 2: swap two bytes; 3: rotate by one
+    /// byte; 4: complement; 5: constant-byte pair (seed byte 0 and 1 give the two constants)
+    relation: u8,
+    a: u8,
+    b: u8,
+}
+
+pub struct RelatedSeeds;
+
+fn related(seed: &[u8; 32], relation: u8, a: u8, b: u8) -> ([u8; 32], [u8; 32]) {
+    let mut s = *seed;
+    let mut t = *seed;
+    let (i, j) = ((a % 32) as usize, (b % 32) as usize);
+    let bit = 1u8 << (a >> 5);
+    match relation % 6 {
+        0 => {
+            let j = if j == i { (i + 1) % 32 } else { j };
+            t[i] ^= bit;
+            t[j] ^= bit;
+        }
+        1 => {
+            for k in 0..4 {
+                t[(i + 7 * k) % 32] ^= bit;
+            }
+        }
+        2 => t.swap(i, if j == i { (i + 1) % 32 } else { j }),
+        3 => t.rotate_left(1),
+        4 => {
+            for x in t.iter_mut() {
+                *x = !*x;
+            }
+        }
+        _ => {
+            s = [seed[0]; 32];
+            t = [if seed[1] == seed[0] { !seed[0] } else { seed[1] }; 32];
+        }
+    }
+    (s, t)
+}
+
+impl Sub for RelatedSeeds {
+    type Case = RelatedCase;
+    fn name(&self) -> &'static str {
+        "keygen_related_seeds"
+    }
+    fn max_shrink_iters(&self) -> u32 {
+        8
+    }
+    fn batch(&self) -> usize {
+        1
+    }
+    fn strategy(&self, _env: &Env) -> BoxedStrategy<RelatedCase> {
+        (prop_oneof![5 => Just(512usize), 1 => Just(1024usize)], any::<[u8; 32]>(), 0u8..6, any::<u8>(), any::<u8>()).prop_map(|(n, s, relation, a, b)| RelatedCase { n, seed: seed_hex(&s), relation, a, b }).boxed()
+    }
+    fn check(&self, c: &RelatedCase, st: &mut Stats) -> Result<(), Fail> {
+        let seed = seed_from(&c.seed).ok_or_else(|| Fail::new("harness:bad-replay", "seed must be 32 bytes"))?;
+        let n = c.n;
+        let (s, t) = related(&seed, c.relation, c.a, c.b);
+        if s == t {
+            return Ok(());
+        }
+        // one fresh thread: S, then S'
+        let seq = std::thread::spawn(move || {
+            let first = api::keygen(n, s);
+            let second = api::keygen(n, t);
+            ((first.0.to_bytes(), first.1.to_bytes()), (second.0.to_bytes(), second.1.to_bytes()))
+        })
+        .join()
+        .map_err(|_| Fail::new("keygen:panic-in-thread", "key generation panicked in a spawned thread"))?;
+        // another fresh thread: S' alone
+        let alone = std::thread::spawn(move || {
+            let k = api::keygen(n, t);
+            (k.0.to_bytes(), k.1.to_bytes())
+        })
+        .join()
+        .map_err(|_| Fail::new("keygen:panic-in-thread", "key generation panicked in a spawned thread"))?;
+        ensure!(seq.1 == alone, "keygen:history-dependent", "Falcon-{}: keygen({}) right after keygen({}) on the same thread differs from keygen of the same seed on a fresh thread (relation {})", n, hex(&t), hex(&s), c.relation % 6);
+        ensure!(seq.0 != seq.1, "keygen:related-seeds-collide", "Falcon-{}: the related seeds {} and {} (relation {}) give the same key pair", n, hex(&s), hex(&t), c.relation % 6);
+        st.count(&format!("related_seed_pairs_relation_{}", c.relation % 6));
+        st.nontrivial(&(n, s, t));
+        st.sample("related_seeds", || json!({"n": n, "first": hex(&s), "second": hex(&t), "relation": c.relation % 6}));
+        Ok(())
+    }
+}
+
 /// keygen(seed) in a fresh process, and in a fresh process that first generated a key of the OTHER
 /// variant, must agree with each other and with this process: the result may depend on nothing but
 /// the seed, in particular not on which parameter set the process used first.
@@ -429,7 +521,7 @@ impl Sub for ApiHistory {
 }
 
 const META: Meta = Meta {
-    rule: "(1) bit flips: every one of the 256 seed bits of at least one Falcon-512 seed (enumerated) and generated (seed, bit) pairs for both variants: keygen(seed xor e_i) must differ from keygen(seed) as bytes; (2) histories of 5-9 steps over two random seeds per variant plus a degenerate seed (all-zero / all-0xFF), interpreted against a model map seed -> bytes of the first generation: Keygen (same thread), KeygenInThread (fresh thread), KeygenConcurrently (two threads at once), KeygenInChild (the harness re-executes itself), Sign (interleaved signing with a live key); every later generation of a seed must reproduce the first bytes; (3) repeated generation (twice in one thread, once in a fresh thread) of generated seeds and of the committed slow seeds - seeds on which the key generator rejects 60-200 candidates before accepting one, found by replaying its candidate loop through the hooks (`fvh hunt-c15`); (4) process history: the key of a seed generated in a fresh process, in a fresh process that first generated a key of the other variant, and in this process must agree (generated seeds plus committed seeds whose f, g come close to the other variant's coefficient limit). Non-trivial = a bit flip, or a history with a re-generation in another thread/process or after an interleaved sign; distinct by hash.",
+    rule: "(1) bit flips: every one of the 256 seed bits of at least one Falcon-512 seed (enumerated) and generated (seed, bit) pairs for both variants: keygen(seed xor e_i) must differ from keygen(seed) as bytes; (2) histories of 5-9 steps over two random seeds per variant plus a degenerate seed (all-zero / all-0xFF), interpreted against a model map seed -> bytes of the first generation: Keygen (same thread), KeygenInThread (fresh thread), KeygenConcurrently (two threads at once), KeygenInChild (the harness re-executes itself), Sign (interleaved signing with a live key); every later generation of a seed must reproduce the first bytes; (3) repeated generation (twice in one thread, once in a fresh thread) of generated seeds and of the committed slow seeds - seeds on which the key generator rejects 60-200 candidates before accepting one, found by replaying its candidate loop through the hooks (`fvh hunt-c15`); (4) process history: the key of a seed generated in a fresh process, in a fresh process that first generated a key of the other variant, and in this process must agree (generated seeds plus committed seeds whose f, g come close to the other variant's coefficient limit). (5) related seeds: keygen(S') right after keygen(S) on one thread, S' obtained from S by flipping one bit position in two or four bytes, swapping or rotating bytes, complementing, or both constant-byte seeds, must equal keygen(S') on a fresh thread and differ from keygen(S). Non-trivial = a bit flip, or a history with a re-generation in another thread/process or after an interleaved sign; distinct by hash.",
     assumptions: &[
         "api_history sub-check: generated histories of 6-60 operations over four in-place key slots (load a fresh object, regenerate, clone, encode/decode, drop, sign and verify on this or a fresh thread; messages include the empty one and two large ones of equal length), interpreted against the obvious model with this property's invariant",
         "'depends on nothing but the seed' is tested against the influences the harness can vary: thread, process, call history, prior signing; not the machine",
@@ -439,7 +531,7 @@ const META: Meta = Meta {
 
 pub fn run(env: &Env, replay: Option<&Path>) -> i32 {
     let mut report = Report::new();
-    let subs: [&dyn DynSub; 5] = [&BitFlip, &History, &Repeat, &ProcessHistory, &ApiHistory];
+    let subs: [&dyn DynSub; 6] = [&BitFlip, &History, &Repeat, &ProcessHistory, &ApiHistory, &RelatedSeeds];
     if let Some(p) = replay {
         if let Err(e) = replay_file(env, &subs, p, &mut report) {
             eprintln!("harness: {}", e);
@@ -470,6 +562,7 @@ pub fn run(env: &Env, replay: Option<&Path>) -> i32 {
     drive(env, &History, env.tier.pick(12, 128), &mut report);
     drive(env, &Repeat, env.tier.pick(8, 400), &mut report);
     drive(env, &ProcessHistory, env.tier.pick(6, 200), &mut report);
+    drive(env, &RelatedSeeds, env.tier.pick(18, 400), &mut report);
     drive(env, &ApiHistory, env.tier.pick(48, 1_000), &mut report);
     let covered: Vec<usize> = (0..256).filter(|b| report.stats.counters.contains_key(&format!("bit_position_covered_{:03}", b))).collect();
     report.extra.insert("seed_bit_positions_covered".into(), json!(covered.len()));
